@@ -116,13 +116,13 @@ class TG:
         def mk(k):
             return ["const", r.randrange(0, 3)] if k == "const" else self.expr_of(k)
         c = self.cond(); a = mk(ka); b = mk(kb)
-        kind = "fxp" if "fxp" in (ka, kb) else "int"
+        kind = merge_kind(ka, kb)          # a selection between two booleans is a boolean, fixed point wins, else a plain secret
         x = self.new(kind)
         return ["sel", x, c, a, b]
 
     def assign(self, inblock, lvs=(), inloop=False):
         r = self.rnd
-        x = r.choice([v for v, k in self.kinds.items() if k != "hidden"])
+        x = r.choice(list(self.kinds))
         k = self.kinds[x]
         if k == "list":
             if r.random() < 0.5 and x not in self.noset:
@@ -157,10 +157,13 @@ class TG:
         return body, changed
 
     def after_block(self, before, changes):
-        """kinds after a block: booleans come back as plain secrets (the merge is `b + c*(a-b)`), fixed point wins"""
-        for x, k in before.items():
-            ks = {k} | {ch[x] for ch in changes if x in ch}
-            self.kinds[x] = k if k in ("list", "mat") else "fxp" if "fxp" in ks else "int"
+        """kinds after a block: every arm ends with the merge `if_then_else(cond, value in the arm, snapshot)`; a variable the
+        arm did not rebind is merged with its own snapshot and keeps its kind (booleans included: a selection between two
+        booleans is a boolean), fixed point wins, a boolean merged with an integer is a plain secret"""
+        cur = dict(before)
+        for ch in changes:
+            cur = after_arm(cur, ch)
+        self.kinds.update(cur)
 
     def stmt(self, depth):
         r = self.rnd; c = r.random()
@@ -176,32 +179,32 @@ class TG:
             e = self.expr_of(k)
             return ["assign", self.new(k), e]
         before = dict(self.kinds)
-        # once a block has been left, every boolean variable is a plain secret 0/1 (it went through a merge): the later arms
-        # of a chain, and loop bodies from the second round on, must not use it as a boolean
-        later = {x: ("int" if k == "bool" else k) for x, k in before.items()}
+        # a tracked boolean lives through every block as a boolean (merged with its own snapshot): the later arms of a chain
+        # (whose conditions are evaluated after the earlier arms were closed), loop bodies from the second round on, loop and
+        # break conditions use it as one; `cur` follows the kinds through the merges at the arm exits
         if c < 0.8:
-            arms = []; changes = []
+            arms = []; changes = []; cur = dict(before)
             for i in range(r.choice([1, 1, 2, 3])):
-                self.kinds = dict(before if i == 0 else later)
-                cd = self.cond(boolvar=(i == 0))
+                self.kinds = dict(cur)
+                cd = self.cond()
                 body, ch = self.arm()
                 arms.append([cd, body]); changes.append(ch)
+                cur = after_arm(cur, ch)
             els = None
             if r.random() < 0.6:
-                self.kinds = dict(later)
+                self.kinds = dict(cur)
                 els, ch = self.arm(); changes.append(ch)
             self.kinds = dict(before)
             self.after_block(before, changes)
             return ["if", arms, els]
-        # inside a loop a boolean variable is a LinCombBool in the first round and a plain secret afterwards: not used there
-        self.kinds = {x: ("hidden" if k == "bool" else k) for x, k in before.items()}
+        # loop bodies do not change kinds (`assign(inloop=True)`), so every round sees the kinds of the first one
         if c < 0.9:
             body, _ = self.arm(lvs=("i0",), inloop=True)
             self.after_block(before, [])
             return ["for", "i0", ["in", r.randrange(self.ninp)], r.randrange(1, 4), body]
-        cd = self.cond(boolvar=False)
+        cd = self.cond()
         body, _ = self.arm(inloop=True)
-        brk = self.cond(boolvar=False) if r.random() < 0.4 else None
+        brk = self.cond() if r.random() < 0.4 else None
         self.after_block(before, [])
         return ["while", cd, r.randrange(1, 3), body, brk]
 
@@ -218,6 +221,17 @@ class TG:
             body.append(self.stmt(0))
         return {"typed": True, "stream": "typed", "kinds": kinds0, "init": init, "secret_vars": list(init),
                 "inputs": [r.randrange(-2, 6) for _ in range(self.ninp)], "finputs": [r.randrange(-8, 12) for _ in range(self.nfin)], "body": body}
+
+
+def merge_kind(a, b):
+    """kind of `if_then_else(cond, a, b)` on scalars: fixed point wins (the other branch is converted), two booleans give a
+    boolean, everything else a plain secret integer"""
+    return "fxp" if "fxp" in (a, b) else "bool" if a == b == "bool" else "int"
+
+
+def after_arm(cur, changed):
+    """kinds after the merge at the exit of an arm that rebound the variables in `changed` (lists keep their kind)"""
+    return {x: (k if k in ("list", "mat") else merge_kind(changed.get(x, k), k)) for x, k in cur.items()}
 
 
 def init_value(r, k):
